@@ -106,15 +106,17 @@ def check_case(col, cfgname, m, t):
         if sc["ordmax"] <= nc - 1:
             # the class fixes the table width from ordmax: inject only when they agree
             pass
-        alg = pw.run_class("SSIcov", ct, ncols=nc, hc=HC_OFF, sc=tol, ordmin=sc["ordmin"]) if sc["ordmax"] == nc - 1 else None
-        if alg is not None:
-            ok &= judge(alg.result.Lab, "SSIcov.run")
-            col.count()
+        if sc["ordmax"] == nc - 1:
+            for cls_name in ("SSIcov", "SSIdat_MS"):          # the two copies of the labelling call (single / multi-setup run)
+                alg = pw.run_class(cls_name, ct, ncols=nc, hc=HC_OFF, sc=tol, ordmin=sc["ordmin"])
+                ok &= judge(alg.result.Lab, f"{cls_name}.run")
+                col.count()
     else:
         if sc["ordmax"] == nc:
-            alg = pw.run_class("pLSCF", ct, ncols=nc, hc=HC_OFF, sc=tol, ordmin=sc["ordmin"])
-            ok &= judge(alg.result.Lab, "pLSCF.run")
-            col.count()
+            for cls_name in ("pLSCF", "pLSCF_MS"):
+                alg = pw.run_class(cls_name, ct, ncols=nc, hc=HC_OFF, sc=tol, ordmin=sc["ordmin"])
+                ok &= judge(alg.result.Lab, f"{cls_name}.run")
+                col.count()
     flat = [a for row in adm for a in row]
     if any(a in (1, 2) for a in flat) and any(a == 0 and not pw.is_nan(tab[r][c]) and c > 0
                                                 for r, row in enumerate(adm) for c, a in enumerate(row)):
